@@ -55,11 +55,12 @@ func run(sc scenario) (body func(), check func(r *vrt.Result) []finding) {
 	var retProblems []string
 	var acceptedAtCall int
 	var timeAdvanced bool
+	var lateAfterShutdown bool
 	body = func() {
 		w = pworld.NewWorld()
 		clients = make([]*pworld.Client, len(sc.Place))
 		clientDone = make([]bool, len(sc.Place))
-		late, lateDone, closeRet, retProblems, timeAdvanced = nil, false, false, nil, false
+		late, lateDone, closeRet, retProblems, timeAdvanced, lateAfterShutdown = nil, false, false, nil, false, false
 		w.Respond = func(req *http.Request) (*http.Response, error) { return nil, nil }
 		w.Respond = nil
 		w.Start()
@@ -137,6 +138,10 @@ func run(sc scenario) (body func(), check func(r *vrt.Result) []finding) {
 			}
 		})
 		lateBody := func() {
+			// "accepted after shutdown began" is decided by the proxy's own public state at the moment the client
+			// dials: a connection dialled while Closing() is already true is certainly accepted after shutdown
+			// began (one dialled in the window between the call of Close and its first effect is not)
+			lateAfterShutdown = w.Proxy.Closing()
 			cl, err := w.Dial("late")
 			if err != nil {
 				lateDone = true
@@ -279,9 +284,7 @@ func run(sc scenario) (body func(), check func(r *vrt.Result) []finding) {
 		}
 		if late != nil {
 			// which accepted conn is it? the last one. Served only legitimately if accepted before Close was called.
-			idx := len(w.L.AcceptTicks) - 1
-			acceptedAfter := idx < 0 || w.L.AcceptTicks[idx] > callTick || len(w.L.Accepted) < len(sc.Place)+1
-			if acceptedAfter {
+			if lateAfterShutdown {
 				if n := len(w.Find("reqmod-start", "late")); n > 0 {
 					add("late_conn_served", "a connection accepted after shutdown began was served (%d request modifier calls)", n)
 				}
